@@ -622,6 +622,17 @@ func cmdCheck(spec propSpec, tier string) int {
 			exit = 1
 		}
 	}
+	// keep only the replay files that were reported (own) or sampled (incidental)
+	keep := map[string]bool{}
+	for _, p := range reported {
+		keep[p] = true
+		keep[strings.TrimSuffix(p, ".min.json")+".json"] = true
+	}
+	for _, r := range own {
+		if r.ReplayAt != "" && !keep[r.ReplayAt] {
+			_ = os.Remove(r.ReplayAt)
+		}
+	}
 	var knownLines []string
 	for k, n := range known {
 		knownLines = append(knownLines, fmt.Sprintf("%s (hit %d times)", k, n))
